@@ -25,6 +25,10 @@ fn make_string_constant(s: &str) -> String {
             .replace('$', "`$")
             .replace('\n', "`n")
             .replace('\r', "`r")
+            // PowerShell also treats the typographic quotes as string delimiters
+            .replace('\u{201C}', "`\u{201C}")
+            .replace('\u{201D}', "`\u{201D}")
+            .replace('\u{201E}', "`\u{201E}")
     )
 }
 
